@@ -176,6 +176,16 @@ let peek_window ln j =
   uniq_sorted (List.concat_map (fun c -> List.filter (fun k -> k >= lo && k <= hi) [c - 1; c; c + 1; c + 2])
                  [lo; -ln; -2; 0; ln - 1; j; j - ln])
 
+(* the offsets whose Peek results are digested (see big.go) *)
+let peek_sweep ln j =
+  let lo = -(ln + 2) and hi = ln + 1 in
+  if ln <= 300 then range lo hi
+  else begin
+    let stride = (2 * ln + 4) / 100 + 1 in
+    let rec go k acc = if k > hi then acc else go (k + stride) (k :: acc) in
+    uniq_sorted (go lo (peek_window ln j))
+  end
+
 type machine = {
   op : int M.op -> int M.out;          (* runs one operation (mutating or observing) *)
   set_caps : M.z list -> unit;         (* oracle capacities for the regrowths of the next batch *)
@@ -191,10 +201,11 @@ let model_machine q0 =
       let c = match !caps with c :: _ -> c | [] -> z0 in
       let o' = match o with M.OAdd (v, _) -> M.OAdd (v, c) | M.OPush (v, _) -> M.OPush (v, c) | o -> o in
       let (q', r) = get (M.step64 zero !q o') in
-      (match o with
-       | M.OAdd _ | M.OPush _ ->
-         (* an oracle value is consumed exactly when the buffer was regrown *)
-         if len_of q' <> len_of !q then (match !caps with _ :: t -> caps := t | [] -> ())
+      (match o, !caps with
+       | (M.OAdd _ | M.OPush _), _ :: t ->
+         (* an oracle value is consumed exactly when the buffer was regrown (with no value left, a
+            regrowth is given capacity 0 and the model answers BadOracle) *)
+         if len_of q' <> len_of !q then caps := t
        | _ -> ());
       q := q'; r);
     set_caps = (fun l -> caps := l);
@@ -231,12 +242,12 @@ let b_obs m j =
   let slice = m_list m M.OSlice in
   let all = m_list m (M.OEach (nat_of_int (len + 1))) in
   let half = m_list m (M.OEach (nat_of_int (len / 2))) in
-  let lo = -(len + 2) in
-  let peeks = Array.of_list (List.map (fun k -> show_peek (m.op (M.OPeek (z_of_int k)))) (range lo (len + 1))) in
+  let tbl = Hashtbl.create 512 in
+  let swept = List.map (fun k -> let t = show_peek (m.op (M.OPeek (z_of_int k))) in Hashtbl.replace tbl k t; t) (peek_sweep len j) in
   Printf.sprintf "o/%s%d,%s/%d/%s/%s/%s/%s/%s" hook len (b01 empty) front
     (if slice = [] then "nil" else seq_summary slice j) (seq_summary all j) (seq_summary half j)
-    (fnv64 (String.concat "," (Array.to_list peeks)))
-    (String.concat "," (List.map (fun k -> Printf.sprintf "%d:%s" k peeks.(k - lo)) (peek_window len j)))
+    (fnv64 (String.concat "," swept))
+    (String.concat "," (List.map (fun k -> Printf.sprintf "%d:%s" k (Hashtbl.find tbl k)) (peek_window len j)))
 
 (* runs the batches on a machine; [emit] receives one record per op (and one for the construction) *)
 let run_b m ops emit =
